@@ -1845,6 +1845,7 @@ NULLABLE_LOOKUPS = {
     "CPPIdentifier::find_symbol", "CPPIdentifier::find_type", "CPPIdentifier::find_template", "CPPIdentifier::find_scope", "CPPIdentifier::get_scope",
     "CPPScope::find_symbol", "CPPScope::find_type", "CPPScope::find_template", "CPPScope::find_scope",
     "CPPDeclaration::get_template_scope",
+    "CPPExpression::determine_type",
 }
 # a predicate of the receiver that is, by its one-line body, `<the nullable member> != nullptr`
 NONNULL_WITNESS = {"CPPDeclaration::get_template_scope": "is_template"}
@@ -1918,22 +1919,29 @@ def lookup_results_are_nullable(ctx):
     for f in db.functions:
         if "bison" in f.file or not any(d in f.file for d in ("/cppparser/", "/interrogate/")):
             continue
-        defs, cnt = {}, {}
+        defs, cnt, nulls = {}, {}, {}
         for y in f.walk():
             if y.get("k") == "decls":
                 for dd in y["d"]:
-                    cnt[dd["d"]] = cnt.get(dd["d"], 0) + 1
                     i0 = strip_casts(peel(dd.get("init"))) if dd.get("init") is not None else None
+                    if i0 is not None and i0.get("k") == "nullp":
+                        nulls[dd["d"]] = nulls.get(dd["d"], 0) + 1
+                        continue
+                    cnt[dd["d"]] = cnt.get(dd["d"], 0) + 1
                     if _is_nullable_call(i0):
                         defs[dd["d"]] = i0
             t = assigned_target(y)
             if t:
                 r = local_ref(t[0])
                 if r is not None:
-                    cnt[r["d"]] = cnt.get(r["d"], 0) + 1
                     v = strip_casts(peel(t[1]))
+                    if v is not None and v.get("k") == "nullp":
+                        nulls[r["d"]] = nulls.get(r["d"], 0) + 1
+                        continue
+                    cnt[r["d"]] = cnt.get(r["d"], 0) + 1
                     if _is_nullable_call(v):
                         defs[r["d"]] = v
+        # a local whose only non-null definition is one nullable call (it may also be set to nullptr) holds that call's answer
         single = {d: v for d, v in defs.items() if cnt.get(d, 0) == 1}
 
         def evidence(call, local_d=None):
